@@ -415,8 +415,13 @@ def sched_strategy(draw, cfg, role, horizon):
     if role == "cons" and nseg == 0 and draw(st.integers(0, 7)):
         nseg = 1          # a consumer that never stalls keeps a bypass build in bypass mode: keep that class small
     segs = []
-    for _ in range(nseg):
-        kind = draw(st.sampled_from(["stall_long", "stall_thr", "burst", "burst_long", "duty", "duty_slow", "trickle"]))
+    for si in range(nseg):
+        kinds = ["stall_long", "stall_thr", "burst", "burst_long", "duty", "duty_slow", "trickle"]
+        if role == "cons":
+            # consumers stall more often than producers, and they start with a stall (otherwise most bypass builds with
+            # ratio > 1 would never leave bypass mode)
+            kinds = ["stall_long", "stall_thr", "trickle", "duty_slow"] if si == 0 else kinds + ["stall_long", "stall_thr", "trickle"]
+        kind = draw(st.sampled_from(kinds))
         if kind == "stall_long":
             segs.append([draw(st.integers(capw // 2, 2 * capw + 40)), 0, 1])
         elif kind == "stall_thr":
